@@ -5,6 +5,7 @@ package main
 // Paths over-approximate executions, so an infeasible path can only make a rule fail.
 
 import (
+	"go/constant"
 	"go/types"
 
 	"golang.org/x/tools/go/ssa"
@@ -90,7 +91,7 @@ func (wk *Walk) Find(start Loc) *Path {
 		n := queue[0]
 		queue = queue[1:]
 		for k, s := range n.b.Succs {
-			if wk.EdgeOK != nil && !wk.EdgeOK(n.b, k) {
+			if deadEdge(n.b, k) || (wk.EdgeOK != nil && !wk.EdgeOK(n.b, k)) {
 				continue
 			}
 			if visited[s] {
@@ -133,7 +134,7 @@ func (wk *Walk) ReachableInstrs(start Loc) []ssa.Instruction {
 		b := queue[0]
 		queue = queue[1:]
 		for k, s := range b.Succs {
-			if wk.EdgeOK != nil && !wk.EdgeOK(b, k) {
+			if deadEdge(b, k) || (wk.EdgeOK != nil && !wk.EdgeOK(b, k)) {
 				continue
 			}
 			if visited[s] {
@@ -370,4 +371,22 @@ func resultNamed(fn *ssa.Function, i int) *types.Named {
 	}
 	n, _ := deref(fn.Signature.Results().At(i).Type()).(*types.Named)
 	return n
+}
+
+// deadEdge: the edge leaves an If whose condition is a compile-time constant (e.g.
+// runtime.GOOS == "windows" on this platform) on the side that is never taken.
+func deadEdge(b *ssa.BasicBlock, k int) bool {
+	if len(b.Instrs) == 0 {
+		return false
+	}
+	iff, ok := b.Instrs[len(b.Instrs)-1].(*ssa.If)
+	if !ok {
+		return false
+	}
+	c, ok := iff.Cond.(*ssa.Const)
+	if !ok || c.Value == nil {
+		return false
+	}
+	v := constant.BoolVal(c.Value)
+	return (k == 0 && !v) || (k == 1 && v)
 }
